@@ -22,6 +22,9 @@ CHECKS = {
     'C19': dict(category='proof', design_ref='DESIGN.md §3 C19', technique=TECH,
                 text='The real VariantPeptidePool.filter is executed symbolically for all pools, headers, expression tables, cutoffs, flag combinations, denylists, miscleavage ranges and enzymes: an entry is appended to the kept list iff it satisfies the rule transcribed from the property statement, a peptide is kept iff some entry is kept and its site count is in range, sequences are never assigned; monotonicity in the cutoff and the miscleavage range are lemmas over that contract.',
                 note='Header parsing (from_variant_peptide_minimal, str(entry)) and the site count are assumed contracts; idempotence on real headers and the CLI table loaders are covered by the bounded native check only.'),
+    'C20': dict(category='proof', design_ref='DESIGN.md §3 C20', technique=TECH,
+                text='The real reverse_sequence and shuffle_sequence are proved for all sequences and all fixed-index sets: output position q holds the target residue q if fixed, else the residue at the mirrored (resp. permuted) non-fixed position (loop invariant with the filter axiom, termination included); lemmas: that map is an involution / bijection, so the decoy is a rearrangement keeping every fixed position. find_fixed_indices returns exactly the requested positions plus the site indices; generate_decoy_sequence appends exactly one decoy with the target header plus decoy string; iteration orders; main sorts targets by sequence before seeding and generates one decoy per target in that order.',
+                note='random.sample is assumed to return a permutation; the filter axiom for the comprehension is assumed and cross-checked natively. Known finding K1: the fixed index at a cleavage site is the residue after the bond, not the residue carrying the specificity (pinned by an existing test). Reproducibility and input-order independence of the whole command: bounded runs.'),
 }
 
 _PENDING = 'contracts for this property are not built yet in this revision (planned: see DESIGN.md §3); not claimed until they discharge'
